@@ -164,13 +164,17 @@ def run(ctx):
             k2["prog"] = x["prog"]
             cases.append(k2)
     # every branch witness runs at least once (on the smallest random-content case of a stack of its semantic stack)
+    # Read-back after an OVERWRITE (b1 = 1 byte, b2 = 5 bytes: larger by smaller and smaller by larger, tx-free /
+    # own tx / caller's tx) always runs, on EVERY stack of the semantic stack (every store that can overwrite).
     for (semk, f), x in sorted(branchw.items()):
-        if featcov[semk][f] == 0:
-            host = [c for c in static if _semkey(c["sem"]) == semk and c["sc"] == "one" and c["content"] == "random"]
-            k2 = dict(host[0])
-            k2["case"] = len(cases) + 1
-            k2["prog"] = x["prog"]
-            cases.append(k2)
+        over = '"overwrote"' in f
+        if featcov[semk][f] == 0 or over:
+            hosts = [c for c in static if _semkey(c["sem"]) == semk and c["sc"] == "one" and c["content"] == "random"]
+            for h in (hosts if over else hosts[:1]):
+                k2 = dict(h)
+                k2["case"] = len(cases) + 1
+                k2["prog"] = x["prog"]
+                cases.append(k2)
             for g2 in x["fset"]:
                 featcov[semk][g2] += 1
     ctx.extra["model_branches_covered"] = {k: len([f for f in v if v[f] > 0]) for k, v in featcov.items()}
